@@ -287,6 +287,24 @@ def integer_grid(sp, factor=None):
     return out
 
 
+def add_cross_omegas(sp, rng, p_pair=0.6, amp=(0.1, 0.8)):
+    """tabulated cross intramolecular correlations (copolymer-like) on a random SUBSET of the unlike pairs - so that e.g. only
+    types that are not neighbours in the type list are connected - smooth, positive or sign-changing (rigid bonds give sin(kl)/(kl))"""
+    import pvmon.refmodel as R_
+    kgrid = R_.grids(sp['L'], sp['dr'])[1]
+    n = 0
+    for (i, j), (a, b) in pairs(sp['types'], diagonal=False):
+        if rng.random() < p_pair:
+            if rng.random() < 0.5:
+                w = float(rng.uniform(*amp)) * np.exp(-kgrid * float(rng.uniform(0.3, 1.0)))
+            else:
+                l = float(rng.uniform(0.5, 1.5)) * max(sp['d'][a], sp['d'][b])
+                w = float(rng.uniform(*amp)) * np.sin(kgrid * l) / (kgrid * l)          # negative at some k
+            sp['om'][pk(a, b)] = {'t': 'ARR', 'w': w.tolist()}
+            n += 1
+    return n
+
+
 def hostile_edits(s, rng):
     """the user keeps working with the System after createPRISM: every table, the temperature, the domain and the
     objects stored in the tables are changed.  A PRISM object created earlier must not notice."""
